@@ -168,11 +168,15 @@ Definition acquire_first_once (ops : list throttle_op) : bool :=
 
 (* ---------- correspondence: a trace of labels, each optionally followed by a snapshot of the real session ---------- *)
 Record tsnap := { ts_semv : Z; ts_value : Z; ts_holders : list N; ts_running : list N; ts_nwaiters : nat;
-                  ts_ended : list N; ts_asked : list N }.
+                  ts_ended : list N; ts_asked : list N;
+                  ts_unanswered : option nat   (* unanswered_request_count(), where the session is still open *) }.
+(* requests received whose handling has not finished *)
+Definition unfinished (st : tstate) : nat := length (ready st) + length (reqs st).
 Definition tsnap_ok (st : tstate) (s : tsnap) : bool :=
   (semv (lim st) =? ts_semv s) && (value (lim st) =? ts_value s) && sorted_eq (holders (lim st)) (ts_holders s) &&
   sorted_eq (running st) (ts_running s) && (length (waiters (lim st)) =? ts_nwaiters s)%nat &&
-  sorted_eq (ended st) (ts_ended s) && list_eqb N.eqb (asked st) (ts_asked s).
+  sorted_eq (ended st) (ts_ended s) && list_eqb N.eqb (asked st) (ts_asked s) &&
+  match ts_unanswered s with Some n => (unfinished st =? n)%nat | None => true end.
 Fixpoint ttrace_firstbad (ops : list throttle_op) (st : tstate) (tr : list (tlabel * option tsnap)) (i : nat) : option nat :=
   match tr with
   | [] => None
